@@ -152,6 +152,8 @@ lemma L_def_opaque [C14]: forall d *TypeDef :: !Equal(box(d), d.Underlying)
 lemma L_def_identity [C14]: forall d1, d2 *TypeDef :: Equal(box(d1), box(d2)) <==> d1 == d2
 // a type definition over a number is not itself numeric (it converts only explicitly)
 lemma L_def_not_numeric [C14]: forall d *TypeDef :: !IsNumeric(box(d))
+// the primitive types are their own normal forms
+lemma L_prim_normal [C14, C02]: forall p PrimitiveType :: norm(box(p)) == box(p) && tnorm(box(p)) == box(p)
 lemma L_list_equal [C14]: forall a, b Type :: Equal(box(mk[ListType](a)), box(mk[ListType](b))) <==> Equal(a, b)
 
 // ================= C15: generic type parameters and instantiations =================
